@@ -205,6 +205,10 @@ pub fn run(tier: Tier, replay: Option<Value>) -> ! {
                 }
                 // $? seen by the handler is the terminating status = the process status (unless the handler exits)
                 let seen: i64 = lines[m][2..].parse().unwrap_or(-1);
+                // (only meaningful when the marker is the handler's first command)
+                if c.tags.iter().any(|t| t == "special:exit-handler-failing-cmd") {
+                    continue;
+                }
                 let want_status = if c.handler_exits { if c.tags.iter().any(|t| t == "special:exit-in-exit-handler-twice") { 8 } else { 9 } } else { seen };
                 if *status != want_status {
                     let mut t = tags.clone();
